@@ -1,8 +1,171 @@
+/-
+  C08 — line-protocol ops of the executable model.
+
+  tokens on the line: comma-separated `o:<n>` (CScriptOp), `i:<int>` (integer), `d:<hex>` (bytes).
+  Wherever a Spec definition exists the op evaluates both Model and Spec and answers
+  `model-spec-mismatch …` if they differ (so the correspondence run also exercises the statements
+  proved in Props/C08.lean).
+-/
 import Driver.Util
+import BtcVerif.Model.ScriptBuild
 
 namespace Driver.C08
 open BtcVerif Driver
+open BtcVerif.Spec.Script (Token)
+open BtcVerif.Model.Script
 
-def handle (_op : String) (_args : List String) : Option String := none
+def parseToken? (s : String) : Option Token :=
+  if s.startsWith "o:" then
+    match (s.drop 2).toNat? with
+    | some n => if n < 256 then some (.op n) else none
+    | none => none
+  else if s.startsWith "i:" then (parseInt? (s.drop 2).toString).map .int
+  else if s.startsWith "d:" then (parseHex? (s.drop 2).toString).map .data
+  else none
+
+def parseTokens? (s : String) : Option (List Token) := (splitList s ',').mapM parseToken?
+
+def showToken : Token → String
+  | .op n => "o:" ++ toString n
+  | .int z => "i:" ++ toString z
+  | .data d => "d:" ++ toHex d
+
+def showTokens (ts : List Token) : String := "[" ++ joinWith "," (ts.map showToken) ++ "]"
+
+def showCookErr : Option CookErr → String
+  | none => ""
+  | some (.iter _) => " err:invalidscript"
+  | some (.py e) => " err:" ++ e.family
+
+def showCooked (p : List Token × Option CookErr) : String := showTokens p.1 ++ showCookErr p.2
+
+def showRawOp (o : RawOp) : String :=
+  "(" ++ toString o.opcode ++ "," ++ (match o.data with | some d => toHex d | none => "-") ++ ","
+    ++ toString o.sopIdx ++ ")"
+
+def showRaw (p : List RawOp × Option IterErr) : String :=
+  "[" ++ String.join (p.1.map showRawOp) ++ "]" ++ (if p.2.isSome then " err:invalidscript" else "")
+
+def bit (b : Bool) : String := if b then "1" else "0"
+
+def showResBool : Res Bool → String
+  | .ok b => bit b
+  | .error e => "err:" ++ e.family
+
+def showResNat : Res Nat → String
+  | .ok n => toString n
+  | .error e => "err:" ++ e.family
+
+def showResTok : Res Token → String
+  | .ok t => showToken t
+  | .error e => "err:" ++ e.family
+
+/-- answer `m`, unless the Spec value `s` differs -/
+def tied (what m s : String) : String :=
+  if m = s then m else "model-spec-mismatch " ++ what ++ " model=" ++ m ++ " spec=" ++ s
+
+/-- build, cooked iteration of the result, rebuild from the cooked tokens -/
+def buildLine (ts : List Token) : String :=
+  match build ts with
+  | .error e => tied "build" ("err:" ++ e.family)
+      (match Spec.Script.build ts with | some _ => "some" | none => "err:" ++ e.family)
+  | .ok s =>
+    let c := cooked s
+    let re := match build c.1 with
+      | .ok r => toHex r
+      | .error e => "err:" ++ e.family
+    let m := toHex s ++ " " ++ showCooked c ++ " " ++ re
+    -- the read-back laws are claimed for opcode tokens 0x4f..0xff only (a token o:<push opcode> is not a push)
+    let inDomain := ts.all (fun t => match t with | .op n => 0x4f ≤ n | _ => true)
+    match Spec.Script.build ts with
+    | none => "model-spec-mismatch build model=" ++ m ++ " spec=none"
+    | some b =>
+      if inDomain then tied "build" m (toHex b ++ " " ++ showTokens (Spec.Script.canon ts) ++ " " ++ toHex b)
+      else if b = s then m else "model-spec-mismatch build model=" ++ m ++ " spec=" ++ toHex b
+
+/-- raw iteration, plus the partition of the script it induces (checked, not printed) -/
+def rawLine (s : Bytes) : String :=
+  let p := rawIter s
+  let sp := Spec.Script.parse s
+  let m := p.1.map (fun o => (o.opcode, o.data.getD []))
+  if m ≠ sp.1 ∨ p.2.isNone ≠ sp.2 then "model-spec-mismatch raw " ++ showRaw p
+  else showRaw p
+
+def predsLine (s : Bytes) : String :=
+  let wspk := isWitnessScriptPubKey s
+  let parts : List String :=
+    [ "p2sh=" ++ tied "p2sh" (bit (isP2sh s)) (bit (Spec.Script.isPayToScriptHash s)),
+      "wspk=" ++ tied "wspk" (showResBool wspk) (bit (Spec.Script.isWitnessProgram s).isSome),
+      "wver=" ++ (match Spec.Script.isWitnessProgram s with
+                  | some (v, _) => tied "wver" (showResTok (witnessVersion s)) (showToken (.int v))
+                  | none => showResTok (witnessVersion s)),
+      "k=" ++ tied "k" (bit (isWitnessV0Keyhash s)) (bit (Spec.Script.isP2WPKH s)),
+      "nk=" ++ tied "nk" (bit (isWitnessV0NestedKeyhash s)) (bit (Spec.Script.isNestedP2WPKH s)),
+      "sh=" ++ tied "sh" (bit (isWitnessV0Scripthash s)) (bit (Spec.Script.isP2WSH s)),
+      "nsh=" ++ tied "nsh" (bit (isWitnessV0NestedScripthash s)) (bit (Spec.Script.isNestedP2WSH s)),
+      "push=" ++ tied "push" (bit (isPushOnly s)) (bit (Spec.Script.isPushOnly s)),
+      "canon=" ++ tied "canon" (showResBool (hasCanonicalPushes s)) (bit (Spec.Script.hasCanonicalPushes s)),
+      "unsp=" ++ tied "unsp" (bit (isUnspendable s)) (bit (Spec.Script.startsWithReturn s)),
+      "valid=" ++ tied "valid" (showResBool (isValid s)) (bit (Spec.Script.isValid s)) ]
+  joinWith " " parts
+
+def handle (op : String) (args : List String) : Option String :=
+  match op, args with
+  | "c08.build", [toks] => some <| match parseTokens? toks with
+      | some ts => buildLine ts
+      | none => badArgs
+  | "c08.add", [hex, tok] => some <| match parseHex? hex, parseToken? tok with
+      | some s, some t => (match add s t with
+          | .ok r => toHex r
+          | .error e => "err:" ++ e.family)
+      | _, _ => badArgs
+  | "c08.cooked", [hex] => some <| match parseHex? hex with
+      | some s => showCooked (cooked s)
+      | none => badArgs
+  | "c08.raw", [hex] => some <| match parseHex? hex with
+      | some s => rawLine s
+      | none => badArgs
+  | "c08.preds", [hex] => some <| match parseHex? hex with
+      | some s => predsLine s
+      | none => badArgs
+  | "c08.sigops", [hex, acc] => some <| match parseHex? hex, parseNat? acc with
+      | some s, some a =>
+          if a > 1 then badArgs
+          else tied "sigops" (showResNat (getSigOpCount s (a = 1))) (toString (Spec.Script.sigOpCount (a = 1) s))
+      | _, _ => badArgs
+  | "c08.bn2vch", [z] => some <| match parseInt? z with
+      | some z => tied "bn2vch"
+          (match bn2vch z with | .ok b => toHex b | .error e => "err:" ++ e.family)
+          (toHex (Spec.Script.numEncode z))
+      | none => badArgs
+  | "c08.vch2bn", [hex] => some <| match parseHex? hex with
+      | some b => tied "vch2bn"
+          (match vch2bn b with
+           | .ok (some z) => toString z
+           | .ok none => "none"
+           | .error e => "err:" ++ e.family)
+          (toString (Spec.Script.numDecode b))
+      | none => badArgs
+  | "c08.opn.enc", [z] => some <| match parseInt? z with
+      | some z => showResNat (encodeOpN z)
+      | none => badArgs
+  | "c08.opn.dec", [n] => some <| match parseNat? n with
+      | some n => if n < 256 then showResNat (decodeOpN n) ++ " " ++ bit (isSmallInt n) else badArgs
+      | none => badArgs
+  | "c08.mpi2bn", [hex] => some <| match parseHex? hex with
+      | some b => (match mpi2bn b with
+           | .ok (some z) => toString z
+           | .ok none => "none"
+           | .error e => "err:" ++ e.family)
+      | none => badArgs
+  | "c08.minimal", [hex] => some <| match parseHex? hex with
+      | some b => bit (decide (Spec.Script.minimal b))
+      | none => badArgs
+  | "c08.pushdata", [hex] => some <| match parseHex? hex with
+      | some d => (match encodeOpPushdata d with
+          | .ok r => toHex r
+          | .error e => "err:" ++ e.family)
+      | none => badArgs
+  | _, _ => none
 
 end Driver.C08
